@@ -294,7 +294,14 @@ func (il *inliner) dynamicallyCallable(fn *ssa.Function) bool {
 }
 
 func (il *inliner) inlinable(c *ssa.Function) bool {
-	if !il.cand[c] || len(c.FreeVars) > 0 || len(c.Blocks) == 0 || len(c.Blocks[0].Preds) > 0 {
+	if !il.cand[c] || len(c.FreeVars) > 0 {
+		return false
+	}
+	return il.bodyInlinable(c)
+}
+
+func (il *inliner) bodyInlinable(c *ssa.Function) bool {
+	if len(c.Blocks) == 0 || len(c.Blocks[0].Preds) > 0 {
 		return false
 	}
 	// defers: each must dominate every RunDefers and not sit in a cycle
@@ -425,6 +432,9 @@ func (il *inliner) process(fn *ssa.Function) {
 			continue
 		}
 		if il.changed[fn] && il.devirtualize(fn) {
+			continue
+		}
+		if il.changed[fn] && il.inlineLiteralCall(fn) {
 			continue
 		}
 		break
@@ -573,6 +583,12 @@ func (il *inliner) inlineCall(g *ssa.Function, call *ssa.Call, c *ssa.Function) 
 	vm := map[ssa.Value]ssa.Value{}
 	for i, prm := range c.Params {
 		vm[prm] = call.Call.Args[i]
+	}
+	if mc, ok := call.Call.Value.(*ssa.MakeClosure); ok && mc.Fn == ssa.Value(c) {
+		// a function literal called where it was made: its free variables are the bindings
+		for i, fv := range c.FreeVars {
+			vm[fv] = mc.Bindings[i]
+		}
 	}
 	var clones []*ssa.BasicBlock
 	var cblocks []*ssa.BasicBlock // the callee's blocks reachable from its entry (not its recover block)
@@ -2093,4 +2109,82 @@ func moveAfter(in, anchor ssa.Instruction) {
 	}
 	ab.Instrs = res
 	setInstrBlock(in, ab)
+}
+
+// inlineLiteralCall: a function literal that reached, through an inlined higher-order helper, a call in the function that
+// made it (`withX(func(){…})` → `lit(args)`), and is used nowhere else, is inlined like a helper.
+func (il *inliner) inlineLiteralCall(fn *ssa.Function) bool {
+	for _, b := range fn.Blocks {
+		for _, in := range b.Instrs {
+			call, ok := in.(*ssa.Call)
+			if !ok || il.skipped[in] {
+				continue
+			}
+			mc, ok := call.Call.Value.(*ssa.MakeClosure)
+			if !ok || mc.Parent() != fn {
+				continue
+			}
+			lit, ok := mc.Fn.(*ssa.Function)
+			if !ok || lit.Parent() != fn || mc.Referrers() == nil {
+				continue
+			}
+			uses := 0
+			for _, b2 := range fn.Blocks {
+				for _, in2 := range b2.Instrs {
+					var rands []*ssa.Value
+					for _, r := range in2.Operands(rands) {
+						if *r == ssa.Value(mc) {
+							uses++
+						}
+					}
+				}
+			}
+			if uses != 1 || len(call.Call.Args) != len(lit.Params) {
+				il.skipped[in] = true
+				continue
+			}
+			if il.state[lit] == 1 {
+				il.skipped[in] = true
+				continue
+			}
+			il.process(lit)
+			if !il.bodyInlinable(lit) || !literalDeferFree(lit) {
+				il.skipped[in] = true
+				continue
+			}
+			il.inlineCall(fn, call, lit)
+			// the closure value is gone
+			mb := mc.Block()
+			var out []ssa.Instruction
+			for _, x := range mb.Instrs {
+				if x != ssa.Instruction(mc) {
+					out = append(out, x)
+				}
+			}
+			mb.Instrs = out
+			var anon []*ssa.Function
+			for _, a := range fn.AnonFuncs {
+				if a != lit {
+					anon = append(anon, a)
+				}
+			}
+			fn.AnonFuncs = anon
+			il.dead[lit] = true
+			il.nCalls++
+			il.Log = append(il.Log, fmt.Sprintf("%s ← %s (literal called in place)", fnName(fn), fnName(lit)))
+			return true
+		}
+	}
+	return false
+}
+
+// literalDeferFree: the literal neither defers nor recovers (its defers would otherwise have to run at the call site).
+func literalDeferFree(lit *ssa.Function) bool {
+	ok := true
+	eachInstr(lit, func(in ssa.Instruction) {
+		if _, isDefer := in.(*ssa.Defer); isDefer {
+			ok = false
+		}
+	})
+	return ok && !callsRecover(lit)
 }
